@@ -182,7 +182,8 @@ def spell(ctx, r, sp):
         import pathlib
         return pathlib.PurePosixPath(p)
     if sp == 'dslash':
-        return p.replace('/', '//')
+        # not the leading slash: POSIX (and os.path.normpath) keep exactly two leading slashes distinct
+        return p[:1] + p[1:].replace('/', '//')
     if sp == 'dot':
         d, b = os.path.split(p)
         return d + '/./' + b
@@ -196,9 +197,11 @@ def spell(ctx, r, sp):
     return p
 
 
-def do_query(ctx, b, kind, r, mode):
-    """perform one query and return the normalised answer"""
-    p = ctx.ap(r)
+def do_query(ctx, b, kind, r, mode, sp=None):
+    """perform one query and return the normalised answer; sp = alternative spelling of
+    the path handed to the real library (the model always gets the normalised path)"""
+    p0 = ctx.ap(r)
+    p = spell(ctx, r, sp) if (sp and ctx.real) else p0
     fc = FileComparison.HASH if mode == 'H' else FileComparison.METADATA
     try:
         if kind in ('read_text', 'read_binary'):
@@ -213,16 +216,16 @@ def do_query(ctx, b, kind, r, mode):
         elif kind == 'declare_read':
             b.declare_read(p, fc)
             if ctx.real:
-                with open(p, 'rb') as f:
+                with open(p0, 'rb') as f:
                     v = f.read().decode('latin-1')
             else:
                 mb = ctx.mb_getter()
-                v = mb.v[p][1].decode('latin-1')
+                v = mb.v[p0][1].decode('latin-1')
         elif kind in ('walk', 'walk_bu'):
             top = kind == 'walk'
             res = b.walk(p, top)
             if ctx.real:
-                check_walk_shape(ctx, res, top, p)
+                check_walk_shape(ctx, res, top, p0)
             v = sorted([ctx.rel(d), sorted(sd), sorted(sf)] for d, sd, sf in res)
             if ctx.mask:
                 v = [[d, [x for x in sd if (d + '/' + x if d else x) not in ctx.mask], sf]
@@ -299,7 +302,7 @@ def run_body(ctx, fr, body, acc):
             kind, r = s[1], s[2]
             mode = s[3] if len(s) > 3 else 'M'
             ctx.point('before:' + kind)
-            ans = do_query(ctx, fr.b, kind, r, mode)
+            ans = do_query(ctx, fr.b, kind, r, mode, s[4] if len(s) > 4 else None)
             with ctx.lock:
                 ctx.qlog.append((fr.where, kind, r, mode, ans))
             acc = H(acc, 'q', kind, r, mode, ans)
